@@ -77,7 +77,9 @@ GENERATORS = ["arith"]
 def regenerate():
     """Run the translator; a failure means the source left the translatable subset."""
     rc, out = sh([os.path.join(BIN, "go2coq"), "-repo", REPO, "-out", os.path.join(COQ, "Gen")] + GENERATORS, timeout=600)
-    return rc == 0, out
+    # bootstrap.pl through the implementation's own parser
+    rc2, out2 = sh([os.path.join(BIN, "harness"), "-repo", REPO, "-out", os.path.join(COQ, "Gen"), "gen-bootstrap"], timeout=300)
+    return rc == 0 and rc2 == 0, out + out2
 
 
 def coq_make(jobs=16, timeout=3000):
